@@ -3027,3 +3027,108 @@ def ob_insertion_e2e_both(ctx, k, closed=True, bits=16):
             res.status, res.detail = 'inconclusive', f'vacuous: success={saw_ok} failure={saw_fail}'
     res.time = time.time() - t0
     return res
+
+
+def ob_evaluate_collect_all(ctx, n_routes, n_jobs, fold_jobs):
+    """C15 (collection flavour): `PositionInsertionEvaluator::evaluate_and_collect_all` (real MIR, both closures) with
+    `parallel_collect(source, map)` taken at its contract (the results of `map` in source order) and the per-pair step
+    replaced by its specification (min with a symbolic cost per pair): with more required jobs than routes the result has
+    one entry per job = minimum over the routes, otherwise one entry per route = minimum over the jobs; every (route, job)
+    pair is evaluated exactly once."""
+    from symex import DynV
+    name = f'evaluate_collect_all[routes={n_routes},jobs={n_jobs},{"per-job" if fold_jobs else "per-route"}]'
+    res = Result(name)
+    res.bounds = f'{n_routes} routes x {n_jobs} jobs, symbolic integer cost per pair in [0,2^20]; required jobs {"more" if fold_jobs else "not more"} than routes in the solution'
+    t0 = time.time()
+    fns = ctx.prog.find_method('PositionInsertionEvaluator', 'evaluate_and_collect_all')
+    if len(fns) != 1:
+        raise Inconclusive('PositionInsertionEvaluator::evaluate_and_collect_all not found')
+    s_order = ctx.layout.fields('insertions::InsertionSuccess')
+
+    def success(env, cost):
+        f = {n_: Opaque(n_) for n_ in s_order}
+        f['cost'] = env.struct('insertions::InsertionCost', data=VecV([cost]))
+        return EnumV('insertions::InsertionResult', 0, {0: [Agg('struct', [f[n_] for n_ in s_order], 'insertions::InsertionSuccess')]})
+
+    class Env(drivers.Env):
+        def override(self, engine, st, callee, args, dest_ty):
+            base = callee.split('::<')[0]
+            if base.endswith('parallel_collect'):
+                src = deref_all(args[0])
+                return VecV([engine.call_closure(st, args[1], [RefV(src, i)]) for i in range(len(src.items))])
+            if callee.endswith('eval_job_insertion_in_route'):
+                route, alt = deref_all(args[2]), args[4]
+                job = deref_all(self.field(deref_all(args[1]), 'evaluators::EvaluationContext', 'job'))
+                r = [i for i, x in enumerate(self.routes) if x is route]
+                j = [i for i, x in enumerate(self.jobs) if x is job]
+                if len(r) != 1 or len(j) != 1:
+                    raise Inconclusive('cannot identify the (route, job) pair of a fold step')
+                self.pairs.append((r[0], j[0]))
+                c = z3.Int(f'cost_r{r[0]}_j{j[0]}')
+                st.assumed.append(z3.And(c >= 0, c <= 2 ** 20))
+                if alt.variant() == 1:
+                    return success(self, FV(False, c))
+                prev = self.field(alt.payload[0][0], 'insertions::InsertionSuccess', 'cost').fields[0].items[0]
+                return success(self, FV(False, zs(z3.If(c < prev.v, c, prev.v))))
+            return super().override(engine, st, callee, args, dest_ty)
+
+    env = Env(ctx.prog, ctx.layout, 20)
+    eng = symex.Engine(ctx.prog, ctx.layout, env)
+
+    def body(st):
+        env.assumptions.clear()
+        env.pairs = []
+        po = ctx.layout.fields('domain::Problem')
+        problem = Agg('struct', [Opaque(f) if f != 'goal' else ArcV(Cell(Opaque('goal'))) for f in po], 'domain::Problem')
+        so = ctx.layout.fields('context::SolutionContext')
+        sol = Agg('struct', [Opaque(f) for f in so], 'context::SolutionContext')
+        n_req = (n_routes + 1) if fold_jobs else 0
+        sol.fields[so.index('required')] = VecV([Opaque(f'required{i}') for i in range(n_req)])
+        sol.fields[so.index('routes')] = VecV([Opaque(f'sroute{i}') for i in range(n_routes)])
+        ictx = env.struct('context::InsertionContext', problem=ArcV(Cell(problem)), solution=sol, environment=Opaque('environment'))
+        evaluator = env.struct('selectors::PositionInsertionEvaluator', insertion_position=EnumV('evaluators::InsertionPosition', 0, {}))
+        jobs = VecV([RefV(Cell(Opaque(f'job{i}')), 0) for i in range(n_jobs)])
+        routes = VecV([RefV(Cell(Opaque(f'route{i}')), 0) for i in range(n_routes)])
+        env.jobs = [r.load() for r in jobs.items]
+        env.routes = [r.load() for r in routes.items]
+        try:
+            return eng.exec_fn(st, fns[0], [RefV(Cell(evaluator), 0), RefV(Cell(ictx), 0), RefV(Cell(jobs), 0), RefV(Cell(routes), 0),
+                                           RefV(Cell(EnumV('selectors::LegSelection', 1, {})), 0), RefV(Cell(DynV('selector')), 0)])
+        finally:
+            st.user_pairs = list(env.pairs)
+
+    paths = eng.explore(body)
+    res.paths = len(paths)
+    res.functions |= eng.functions_used
+    all_pairs = [(r, j) for r in range(n_routes) for j in range(n_jobs)]
+    dom = [z3.And(z3.Int(f'cost_r{r}_j{j}') >= 0, z3.Int(f'cost_r{r}_j{j}') <= 2 ** 20) for r, j in all_pairs]
+    for st, out in paths:
+        if out is None:
+            if not no_panic(ctx, res, env, st, dom, what=name):
+                break
+            continue
+        if sorted(st.user_pairs) != all_pairs:
+            res.status, res.detail = 'inconclusive', f'{name}: pairs evaluated {sorted(st.user_pairs)} != all pairs (structural; no replay)'
+            break
+        items = out.items
+        groups = [[(r, j) for r in range(n_routes)] for j in range(n_jobs)] if fold_jobs else [[(r, j) for j in range(n_jobs)] for r in range(n_routes)]
+        if len(items) != len(groups):
+            res.status, res.detail = 'inconclusive', f'{name}: {len(items)} results for {len(groups)} {"jobs" if fold_jobs else "routes"} (structural; no replay)'
+            break
+        claims = []
+        for item, group in zip(items, groups):
+            if item.variant() != 0:
+                claims.append(z3.BoolVal(False))
+                continue
+            rc = env.field(item.payload[0][0], 'insertions::InsertionSuccess', 'cost').fields[0].items[0]
+            cs = [z3.Int(f'cost_r{r}_j{j}') for r, j in group]
+            claims.append(z3.And(z3.Or(*[rc.v == c for c in cs]), *[rc.v <= c for c in cs]))
+        if not decide_claim(ctx, res, env, st, z3.And(*claims), dom, what=f'{name}: entry i == minimum over the other dimension'):
+            break
+        if not no_panic(ctx, res, env, st, dom, what=name):
+            break
+        res.witnesses += 1
+    if res.status == 'holds' and res.witnesses == 0:
+        res.status, res.detail = 'inconclusive', 'vacuous'
+    res.time = time.time() - t0
+    return res
